@@ -24,6 +24,7 @@ RULE = (
     "widths {longest label + 20, 80, 120, 200} with ANSI and plain formatter: no exception; every visible command, "
     "argument (<name>) and option (--long and -s, preferred first; own and inherited) present; no hidden/disabled name on a "
     "page that is not its own or a descendant's; every line <= W; and run('help <path>') == run('<path> --help') byte for "
+    "Also: texts of terminal width -8 .. +1 characters (boundary tree at five widths); typed defaults (int, float, bool, empty list); brace texts of every kind in help texts. "
     "byte with status 0. non-trivial = page with >= 1 own option, >= 1 inherited option and >= 1 sub-command or a "
     "description-less element; distinct by (tree shape, page path, width, formatter)."
 )
